@@ -31,8 +31,12 @@ enum Op {
     IncrBy(usize, i64), Append(usize, Vec<u8>), Del(usize), Strlen(usize), Exists(usize),
     MGet(Vec<usize>), MSet(Vec<(usize, Vec<u8>)>), BatchGet(Vec<usize>), BatchSet(Vec<(usize, Vec<u8>)>),
     Script(usize, Vec<u8>),
+    /// a read through a carelessly written script: its result variable is a global that is only assigned when the key
+    /// exists (every script run starts from a clean interpreter state, so this is a GET)
+    ScriptRead(usize),
 }
 const KEYS: [&str; 3] = ["hot:a", "{hot}:b", "ctr"]; // one name with a Redis-Cluster style hash tag
+const SCRIPT_READ: &str = "if redis.call('EXISTS', KEYS[1]) == 1 then v = redis.call('GET', KEYS[1]) end return v";
 const SCRIPT: &str = "local v = redis.call('GET', KEYS[1]); redis.call('SET', KEYS[1], (v or '') .. ARGV[1]); return v";
 
 fn label(op: &Op) -> String {
@@ -47,6 +51,7 @@ fn label(op: &Op) -> String {
         Op::MGet(ks) => format!("MGET {}", ks.iter().map(|i| k(i)).collect::<Vec<_>>().join(" ")), Op::MSet(ps) => format!("MSET {}", ps.iter().map(|(i, v)| format!("{} {}", k(i), s(v))).collect::<Vec<_>>().join(" ")),
         Op::BatchGet(ks) => format!("batch-GET {}", ks.iter().map(|i| k(i)).collect::<Vec<_>>().join(" ")), Op::BatchSet(ps) => format!("batch-SET {}", ps.iter().map(|(i, v)| format!("{} {}", k(i), s(v))).collect::<Vec<_>>().join(" ")),
         Op::Script(i, v) => format!("EVAL append-script {} {}", k(i), s(v)),
+        Op::ScriptRead(i) => format!("EVAL read-into-a-global-script {}", k(i)),
     }
 }
 
@@ -60,6 +65,7 @@ fn sub_ops(op: &Op) -> Vec<(usize, KOp)> {
         Op::MGet(ks) | Op::BatchGet(ks) => ks.iter().map(|i| (*i, KOp::Get)).collect(),
         Op::MSet(ps) | Op::BatchSet(ps) => ps.iter().map(|(i, v)| (*i, KOp::Set(v.clone()))).collect(),
         Op::Script(i, v) => vec![(*i, KOp::ScriptAppend(v.clone()))],
+        Op::ScriptRead(i) => vec![(*i, KOp::Get)],
     }
 }
 
@@ -91,6 +97,7 @@ async fn exec_op(st: &ShardedActorState<SimClock>, op: &Op) -> Vec<R> {
         Op::BatchGet(ks) => st.fast_batch_get_pipeline(ks.iter().map(kb).collect()).await.iter().map(R::from_resp).collect(),
         Op::BatchSet(ps) => st.fast_batch_set_pipeline(ps.iter().map(|(i, v)| (kb(i), Bytes::from(v.clone()))).collect()).await.iter().map(R::from_resp).collect(),
         Op::Script(i, v) => vec![gen(vec![b("EVAL"), b(SCRIPT), b("1"), b(KEYS[*i]), v.clone()]).await],
+        Op::ScriptRead(i) => vec![gen(vec![b("EVAL"), b(SCRIPT_READ), b("1"), b(KEYS[*i])]).await],
     }
 }
 
@@ -113,6 +120,7 @@ fn wire_op(op: &Op) -> Vec<Vec<u8>> {
         Op::MGet(ks) | Op::BatchGet(ks) => { let mut p = vec![b("MGET")]; for i in ks { p.push(b(KEYS[*i])); } p }
         Op::MSet(ps) | Op::BatchSet(ps) => { let mut p = vec![b("MSET")]; for (i, v) in ps { p.push(b(KEYS[*i])); p.push(v.clone()); } p }
         Op::Script(i, v) => vec![b("EVAL"), b(SCRIPT), b("1"), b(KEYS[*i]), v.clone()],
+        Op::ScriptRead(i) => vec![b("EVAL"), b(SCRIPT_READ), b("1"), b(KEYS[*i])],
     }
 }
 fn wire_replies(op: &Op, r: R) -> Vec<R> {
@@ -166,7 +174,8 @@ impl Property for C02 {
                 let v = format!("c{}-{}", c, uniq).into_bytes();
                 let iv = (1000 * (c as u64 + 1) + uniq).to_string().into_bytes();
                 let k = s.idx(2);
-                match s.below(22) {
+                match s.below(23) {
+                    22 => Op::ScriptRead(if s.chance(1, 3) { 2 } else { k }),
                     0 | 1 | 2 => Op::Get(k, s.below(4) as u8),
                     3 | 4 | 5 => Op::Set(k, v, s.below(4) as u8),
                     6 => Op::SetNx(k, v), 7 => Op::SetXx(k, v), 8 => Op::SetGet(k, v), 9 => Op::GetSet(k, v), 10 => Op::SetNxCmd(k, v),
